@@ -1,6 +1,6 @@
 CONSTANTS
   Def = "en"
-  NonDef = {"fr", "de"}
+  NonDef = {"fr", "de", "es"}
 SPECIFICATION MCSpec
 INVARIANTS FallbackOK ResolvedIsDefining EmitCases
 PROPERTY Termination
